@@ -118,6 +118,15 @@ fn registry() -> Vec<CheckDef> {
         run: kvlib::c10::run,
         replay: kvlib::c10::replay,
         assumptions: &["a write maintains iff the trace shows it opendir the cache directory before its own rename/link", "the trigger's random draws are replaced through the cfg(kismet_verif) hook; draws of 0 are never scripted (the library redraws on 0)", "harness built with overflow-checks on, so arithmetic overflow in the trigger would panic"],
+    },
+    CheckDef {
+        id: "C11",
+        level: "exploration",
+        workers: 16,
+        rule: "proptest-generated histories of 1-199 steps over 3-6 keys whose (hash, secondary hash) are drawn from 8 constants (so primary/secondary images collide and coincide), on {plain, sharded 2-8 shards, stacked over plain, stacked over sharded (optionally with a preloaded read-only level)} with capacities {0,1,2,3,5,8 per directory, never}, 1-3 independent handles, operations {set, put, get, touch, ensure, get_or_update x3, set_temp_file, put_temp_file}, per-step scripted trigger (fire / do not fire) and random-shard draw; after every step the tree is snapshotted and compared with a map model that follows only evictions DirExplainer accepted; non-trivial = the history had an explained eviction, a lookup of a key living in its secondary shard, or >= 2 handles that wrote; distinct by hash of the history",
+        run: kvlib::c11::run,
+        replay: kvlib::c11::replay,
+        assumptions: &["oracle: KvModel (latest set, else first put since absent) + DirExplainer on the directory listing captured by the shim at opendir time", "handles are used one at a time (sequential history); load estimates diverge between handles", "real clock, nanosecond timestamps on tmpfs"],
     }]
 }
 
